@@ -216,8 +216,9 @@ def run_cube(case, ctx):
         un = {'um': u.micron, 'nm': u.nm, 'mm': u.mm}[case['unit']]
         fnames = [(r[0] * u.micron).to(un) for r in case['requests']]
         law = Extinction()
-        law.wav = np.array([0.01, 0.55, 5000.]) * u.micron
-        law.chi = np.array([10., 1., 0.01]) * u.cm ** 2 / u.g
+        lw = [0.01 * (5e5) ** (i / 39.) for i in range(40)]
+        law.wav = np.array(lw) * u.micron
+        law.chi = np.array([w ** -1.7 for w in lw]) * u.cm ** 2 / u.g   # steep: close wavelengths still differ in k
         with must_succeed('Fitter() with wavelength filters'), quiet():
             fitter = Fitter(fnames, np.ones(len(fnames)) * u.arcsec, d, extinction_law=law, av_range=[0., 0.],
                             distance_range=[1., 2.] * u.kpc, use_memmap=case['memmap'])
@@ -229,6 +230,11 @@ def run_cube(case, ctx):
             info = fitter.fit(gen.source_object(src))
         got = dict((str(n).strip(), (float(info.sc[i]), float(info.chi2[i]))) for i, n in enumerate(info.model_name))
         f32 = case['memmap']
+        # with av_range [0, 0] the unconstrained 2-parameter solution is computed first; when it lands inside the range the
+        # scale keeps that solution's rounding error ~ eps*cond
+        kreq = of.extinction_pattern(lw, [w ** -1.7 for w in lw], [r[0] for r in case['requests']])
+        probe = of.Ref2D(bands, [0.] * len(bands), kreq, 0., 0.)
+        cond = probe.cond if not probe.singular else 1e16
         for m, name in enumerate(names):
             ok = False
             detail = None
@@ -240,7 +246,7 @@ def run_cube(case, ctx):
                 S = sum(b[2] * (b[1] - l + 2. * sc) ** 2 for b, l in zip(bands, L))
                 T = sum(b[2] * (b[1] - l) ** 2 for b, l in zip(bands, L))
                 slack = of.float32_slack(bands, L, [0.] * len(L), 0., sc) if f32 else 0.
-                tol_sc = 1e-9 * (1 + abs(sc)) if not f32 else 1e-5 * (1 + abs(sc))
+                tol_sc = (1e-9 + 1e-14 * cond) * (1 + abs(sc)) if not f32 else (1e-5 + 1e-14 * cond) * (1 + abs(sc))
                 if abs(got[name][0] - sc) <= tol_sc and abs(got[name][1] - S) <= 1e-9 * max(T, S) + 1e-9 + slack:
                     ok = True
                     break
